@@ -680,9 +680,11 @@ pub fn driver_main(def: &CheckDef, tier: Tier, seed: u64) -> i32 {
     let edir = Path::new(VERIF).join("evidence");
     let _ = std::fs::create_dir_all(&edir);
     let epath = edir.join(format!("{id}.json"));
-    if let Err(e) = std::fs::write(&epath, serde_json::to_string_pretty(&ev).unwrap()) {
-        eprintln!("cannot write evidence: {e}");
-        return 2;
+    if std::env::var("VERIF_NO_EVIDENCE").is_err() {
+        if let Err(e) = std::fs::write(&epath, serde_json::to_string_pretty(&ev).unwrap()) {
+            eprintln!("cannot write evidence: {e}");
+            return 2;
+        }
     }
 
     for l in &known_lines {
@@ -697,7 +699,16 @@ pub fn driver_main(def: &CheckDef, tier: Tier, seed: u64) -> i32 {
     if violations.is_empty() {
         0
     } else {
+        let mut seen: Vec<&PathBuf> = vec![];
         for (p, d) in &violations {
+            if seen.contains(&p) {
+                continue;
+            }
+            seen.push(p);
+            if seen.len() > 6 {
+                println!("  ... further violations not listed");
+                break;
+            }
             println!("VIOLATION property={id} replay={}", p.display());
             println!("  detail: {}", d.chars().take(1500).collect::<String>());
         }
